@@ -4,10 +4,12 @@ import (
 	"encoding/json"
 	"fmt"
 	"os"
+	"os/signal"
 	"path/filepath"
 	"runtime/debug"
 	"sort"
 	"strings"
+	"syscall"
 
 	"go.uber.org/thriftrw/internal/zzsim/simexec"
 	"go.uber.org/thriftrw/internal/zzsim/simrt"
@@ -45,6 +47,10 @@ type realPluginLog struct {
 // RealPluginMain is the plugin side of the real run (called from TestMain of
 // the re-executed worker binary).
 func RealPluginMain(jobFile string) int {
+	// A write to a pipe the host has closed must come back as EPIPE (the script then ends the
+	// process with status 141, as in the simulator) instead of killing the process before it
+	// has written down what it saw.
+	signal.Ignore(syscall.SIGPIPE)
 	data, err := os.ReadFile(jobFile)
 	if err != nil {
 		fmt.Fprintln(os.Stderr, "real plugin: ", err)
